@@ -108,6 +108,27 @@ def r1_cache_key(a, tier):
             rep.fail(fn.qualname, f'key-misses:{p}', f'the cached model is built from `{p}` but the cache key '
                      f'({norm(sub.slice) if not isinstance(sub.slice, ast.Name) else "key"}) does not depend on it: a later call '
                      f'with a different `{p}` gets the model compiled for the earlier one', f'{fn.module.relpath}:{st.lineno}')
+    # lossy components: a key component computed from a parameter through a function that maps different values to the same result
+    # (type(x), len(x), bool(x), x.__class__ ...) lets two calls that differ in that parameter share an entry.  Faithful forms: the
+    # value itself, id(x), a content hash (hasha / hash / sha*), str / repr / tuple / frozenset / sorted of it
+    FAITHFUL = {'id', 'hasha', 'hash', 'str', 'repr', 'tuple', 'frozenset', 'sorted', 'sha256', 'md5', 'hexdigest', 'encode', 'items'}
+    key_vars0 = {x.id for _, sub in stores for x in ast.walk(sub.slice) if isinstance(x, ast.Name)}
+    key_exprs = [sub.slice for _, sub in stores] + [n.value for n in walk_no_defs(fn.node) if isinstance(n, ast.Assign)
+                                                    and isinstance(n.targets[0], ast.Name) and n.targets[0].id in key_vars0]
+    for ke in key_exprs:
+        for c in ast.walk(ke):
+            if isinstance(c, ast.Call):
+                fname = dotted(c.func).split('.')[-1]
+                argp = {x.id for arg in c.args for x in ast.walk(arg) if isinstance(x, ast.Name)} & set(params)
+                if argp and fname not in FAITHFUL:
+                    rep.add({'key_component': norm(c), 'faithful': False})
+                    rep.fail(fn.qualname, f'lossy-key:{fname}:{sorted(argp)[0]}', f'the cache key holds `{norm(c)}`: {fname}() maps different values of `{sorted(argp)[0]}` to the same '
+                             f'component, so two calls that differ only there share one cached model (the later call changes what the earlier caller holds)',
+                             f'{fn.module.relpath}:{c.lineno}')
+                elif argp:
+                    rep.add({'key_component': norm(c), 'faithful': True})
+            elif isinstance(c, ast.Attribute) and c.attr in ('__class__', '__name__', '__module__') and any(isinstance(x, ast.Name) and x.id in params for x in ast.walk(c)):
+                rep.fail(fn.qualname, f'lossy-key:{c.attr}', f'the cache key holds `{norm(c)}`, which is the same for different objects', f'{fn.module.relpath}:{c.lineno}')
     # id() components
     key_vars = {x.id for _, sub in stores for x in ast.walk(sub.slice) if isinstance(x, ast.Name)}
     for n in walk_no_defs(fn.node):
